@@ -97,6 +97,21 @@ def new_table_words():
     return [w for w in words if w not in ('"', "(", ")", ",", "[", "]")][:24]
 
 
+def new_comparator_keys():
+    """comparator texts that the regenerated `COMPARATORS` table has and the pinned one has not, with the operator each
+    names: [(text, operator name)].  Used only to aim the search when that table changed."""
+    def read(path):
+        try:
+            t = path.read_text()
+        except OSError:
+            return []
+        m = re.search(r"def comparators[^\[]*\[(.*?)\]\n", t, flags=re.S)
+        return re.findall(r'\("([^"]*)", "([^"]*)"\)', m.group(1)) if m else []
+    new = read(LEAN / "Univers" / "Gen" / "Comparators.lean")
+    old = read(LEAN / "Univers" / "Gen.expected" / "Comparators.lean")
+    return [kv for kv in new if kv not in old]
+
+
 def function_status():
     """what the function translator said on this run (Gen/functions.json)"""
     try:
